@@ -74,8 +74,67 @@ fn judge(c: &Case, cls: &mut Classifier) -> Verdict {
     Ok(())
 }
 
+// ---------------------------------------------------------------- CLI sample: `hash message` / `sign message`
+
+#[derive(Clone, Debug, Serialize, Deserialize)]
+pub struct CliCase {
+    pub msg_hex: String,
+    pub stdin: bool,
+}
+
+fn judge_cli(c: &CliCase, cls: &mut Classifier) -> Verdict {
+    use crate::cli::Invocation;
+    use crate::refimpl::{address_of, bip32, bip39, secp, unhex};
+    let m = unhex(&c.msg_hex).unwrap_or_default();
+    let want = eip191(&m);
+    let root = crate::cli::global_root();
+    let phrase = bip39::encode_phrase(&[0x42u8; 16]);
+    let file = if c.stdin { None } else { Some(crate::cli::temp_file(&root, &m)) };
+    let target = file.as_ref().map(|f| f.to_string_lossy().to_string()).unwrap_or_else(|| "-".into());
+    let with_input = |inv: Invocation| if c.stdin { inv.stdin(&m) } else { inv };
+    let h = crate::cli::run_global(&with_input(Invocation::new(&["hash", "message", &target])));
+    let s = crate::cli::run_global(&with_input(Invocation::new(&["sign", "--mnemonic", &phrase, "message", &target])));
+    if let Some(f) = file {
+        let _ = std::fs::remove_file(f);
+    }
+    let (Some(h), Some(s)) = (h, s) else { return fail("cli", "not configured", "CLI not available") };
+    if h.timed_out || s.timed_out {
+        cls.label("timed-out");
+        return Ok(());
+    }
+    let what = format!("{}-byte message {} via {}", m.len(), crate::engine::truncate(&c.msg_hex, 80), if c.stdin { "stdin" } else { "file" });
+    if !h.ok() || h.stdout_str().trim_end() != format!("0x{}", hex_lower(&want)) {
+        return fail(format!("0x{}", hex_lower(&want)), h.describe(), format!("`hdwallet hash message` on a {what}"));
+    }
+    // the signature must be over exactly that digest: recover the signer with the reference stack
+    let sig = s.stdout_str();
+    let bytes = sig.trim_end().strip_prefix("0x").and_then(unhex).filter(|b| b.len() == 65 && (b[64] == 27 || b[64] == 28));
+    let Some(b) = bytes.filter(|_| s.ok()) else {
+        return fail("a signature", s.describe(), format!("`hdwallet sign message` on a {what}"));
+    };
+    let seed = bip39::seed_from_normalised(&phrase, "");
+    let key = bip32::derive(&seed, &bip32::default_path(0)).expect("reference key");
+    let addr = address_of(&secp::mul_g(&key).expect("valid"));
+    let r: [u8; 32] = b[..32].try_into().unwrap();
+    let sv: [u8; 32] = b[32..64].try_into().unwrap();
+    match secp::ecdsa_recover(&want, &r, &sv, b[64] == 28) {
+        Some(q) if address_of(&q) == addr => {}
+        other => {
+            return fail(
+                hex_lower(&addr),
+                format!("{:?}", other.map(|q| hex_lower(&address_of(&q)))),
+                format!("`hdwallet sign message` does not sign the EIP-191 digest of the {what} (signer recovered over the reference digest)"),
+            )
+        }
+    }
+    cls.label("cli-message");
+    cls.label(if std::str::from_utf8(&m).is_ok() { "cli-utf8" } else { "cli-non-utf8" });
+    cls.nontrivial(&(c.msg_hex.as_str(), c.stdin, "cli"));
+    Ok(())
+}
+
 pub fn run(ctx: &mut Ctx) {
-    ctx.rule = "byte strings: every length 0..=1100 (seeded random content, first byte forced through all 256 values and ASCII digits), lengths 10^k-1,10^k,10^k+1 (k=1..5 quick, 1..7 thorough), special contents (NUL, newline, invalid UTF-8, digits only) and proptest-generated strings; oracle: keccak(0x19 'Ethereum Signed Message:\\n' dec(len) m) via sha3 with own decimal loop, for Vec<u8>, &[u8] and String carriers. Non-trivial: message differs from the pinned 12-byte unit-test message; distinct by content.".into();
+    ctx.rule = "byte strings: every length 0..=1100 (seeded random content, first byte forced through all 256 values and ASCII digits), lengths 10^k-1,10^k,10^k+1 (k=1..6 quick, 1..7 thorough), special contents (NUL, newline, invalid UTF-8, digits only) and proptest-generated strings; oracle: keccak(0x19 'Ethereum Signed Message:\\n' dec(len) m) via sha3 with own decimal loop, for Vec<u8>, &[u8] and String carriers; CLI sample: `hash message` prints that digest and the `sign message` signature recovers to the reference-derived signer over it (file and stdin, non-UTF-8 and trailing-newline contents). Non-trivial: message differs from the pinned 12-byte unit-test message; distinct by content.".into();
     ctx.assumptions = vec!["sha3::Keccak256 is a correct Keccak-256".into()];
     ctx.replay_known_and_regressions(&replay);
 
@@ -103,7 +162,7 @@ pub fn run(ctx: &mut Ctx) {
     ctx.run_cases("sweep", &cases, judge);
     ctx.exhaustive_parts.push("message lengths 0..=1100".into());
 
-    let kmax = ctx.tier.pick(5, 7);
+    let kmax = ctx.tier.pick(6, 7);
     let mut big = vec![];
     for k in 1..=kmax {
         let t = 10usize.pow(k);
@@ -128,6 +187,40 @@ pub fn run(ctx: &mut Ctx) {
         },
         judge,
     );
+    // CLI sample: the digest that `hash message` prints and `sign message` signs
+    if crate::cli::global_cli().is_some() {
+        let mut p = Prng::new(ctx.sub_seed("cli", 0));
+        let mut cc = vec![];
+        for i in 0..ctx.tier.pick(120, 2000) {
+            let len = match i % 6 {
+                0 => 0,
+                1 => 1 + p.below(4) as usize,
+                2 => 9 + p.below(3) as usize,
+                3 => 99 + p.below(3) as usize,
+                _ => p.below(3000) as usize,
+            };
+            let mut m = p.bytes(len);
+            match i % 5 {
+                0 => m.iter_mut().for_each(|b| *b = 0x20 + (*b % 0x5f)), // printable ASCII
+                1 => {
+                    if let Some(l) = m.last_mut() {
+                        *l = b'\n';
+                    }
+                }
+                2 => m.extend_from_slice(b"\xff\xfe\xc3\x28"),
+                _ => {}
+            }
+            cc.push(CliCase { msg_hex: hex_lower(&m), stdin: i % 2 == 0 });
+        }
+        ctx.run_cases("cli-message", &cc, judge_cli);
+        if ctx.cls.count("timed-out") > 0 {
+            ctx.inconclusive("CLI watchdog expired");
+        }
+        ctx.floor_abs("cli-non-utf8", 40);
+        ctx.floor_abs("cli-utf8", 10);
+    } else {
+        ctx.inconclusive("CLI executable not available for the `sign message` / `hash message` sample");
+    }
     for d in 1..=kmax.min(5) + 1 {
         ctx.floor_abs(&format!("len-digits-{d}"), 1);
     }
@@ -138,6 +231,7 @@ pub fn run(ctx: &mut Ctx) {
 pub fn replay(sub: &str, case: &Value) -> Option<Verdict> {
     match sub {
         "sweep" | "pow10" | "random" => Some(replay_as::<Case>(case, judge)),
+        "cli-message" => Some(replay_as::<CliCase>(case, judge_cli)),
         _ => None,
     }
 }
